@@ -246,6 +246,13 @@ class CFG:
             else:
                 out.append((n, polarity))
             return out
+        # x == true / x == false / x != true / x != false  reduce to x with the matching polarity
+        if k == "BinaryOperator" and n.get("op") in ("==", "!="):
+            for a_, b_ in ((c[0], c[1]), (c[1], c[0])):
+                sb = strip(b_)
+                if sb is not None and sb["k"] == "CXXBoolLiteralExpr":
+                    same = (n["op"] == "==") == bool(sb.get("v"))
+                    return self.atoms(a_, polarity if same else (not polarity), defs, out)
         # a != b   ==   not (a == b): keep one spelling so that the two tests correlate
         if (k == "BinaryOperator" and n.get("op") == "!=") or (k == "CXXOperatorCallExpr" and n.get("op") == "!=" and len(c) == 3):
             eqn = dict(n)
